@@ -94,8 +94,8 @@ class TypeRegistry:
             return f
 
         # before runtime, type will be compiled and applied
-        # if transformer is defined after the validator compiled
-        # it will not take effect
+        # (converters are still looked up when converting, so a transformer
+        # defined after the validator compiled does take effect)
         return decorator
 
     def resolve(self, t: type) -> Optional[Callable]:
